@@ -173,6 +173,36 @@ func BootData(t *testing.T, data map[string][]byte, img *Image) (*Sys, error) {
 	return s, nil
 }
 
+// BootSealed starts a new Core over raw content and leaves it sealed.
+func BootSealed(t *testing.T, data map[string][]byte, img *Image) (*Sys, error) {
+	sched.InstallDetRand(0x5eed)
+	sched.ResetDetRand()
+	inner := newInner(img.Opt)
+	if err := physx.Restore(inner, data); err != nil {
+		return nil, err
+	}
+	rec := img.Rec.Fork()
+	phys := physx.New(inner)
+	c := vault.TestCoreWithSealAndUINoCleanup(t, coreConfig(phys, img.Opt, rec))
+	return &Sys{T: t, Core: c, Phys: physx.Ctl(phys), Root: img.Root, Keys: img.Keys, Rec: rec, Opt: img.Opt}, nil
+}
+
+// TryUnseal supplies the shares; reports whether the core ended up unsealed.
+func (s *Sys) TryUnseal(keys [][]byte) (bool, error) {
+	var last error
+	for _, k := range keys {
+		if _, err := vault.TestCoreUnseal(s.Core, vault.TestKeyCopy(k)); err != nil {
+			last = err
+		}
+		if !s.Core.Sealed() {
+			s.hookExpiry()
+			s.settle()
+			return true, nil
+		}
+	}
+	return !s.Core.Sealed(), last
+}
+
 func Boot(t *testing.T, img *Image) *Sys {
 	s, err := BootData(t, img.Data, img)
 	if err != nil {
